@@ -24,7 +24,7 @@ func (p *Params) ForsNode(skSeed []byte, i uint32, z int, pkSeed []byte, adrs *A
 	rnode := p.ForsNode(skSeed, 2*i+1, z-1, pkSeed, adrs)
 	adrs.SetTreeHeight(uint32(z))
 	adrs.SetTreeIndex(i)
-	return p.H(pkSeed, adrs, concat(lnode, rnode))
+	return p.HashH(pkSeed, adrs, concat(lnode, rnode))
 }
 
 // ForsSign is FIPS 205 Algorithm 16: sign the ceil(k*a/8)-byte message digest
@@ -66,10 +66,10 @@ func (p *Params) ForsPKFromSig(sigFors, md, pkSeed []byte, adrs *ADRS) []byte {
 			var node1 []byte
 			if (indices[i]>>uint(j))%2 == 0 {
 				adrs.SetTreeIndex(adrs.TreeIndex() / 2)
-				node1 = p.H(pkSeed, adrs, concat(node0, authJ))
+				node1 = p.HashH(pkSeed, adrs, concat(node0, authJ))
 			} else {
 				adrs.SetTreeIndex((adrs.TreeIndex() - 1) / 2)
-				node1 = p.H(pkSeed, adrs, concat(authJ, node0))
+				node1 = p.HashH(pkSeed, adrs, concat(authJ, node0))
 			}
 			node0 = node1
 		}
